@@ -161,7 +161,11 @@ V("C05", "discard_no_finally", "fire", "R05.a", (Z, """    try:
 V("C05", "edit_constant_no_finally", "fire", "R05.a", (Z, """    try:
         yield
     finally:
-        for pname in updated:
+        for pname, pobj in updated:
+            # The Parameter object that was unlocked (it may no longer be
+            # the one a lookup by name finds, e.g. after a class-level set
+            # on a subclass copied an inherited Parameter).
+            pobj.constant = True
             # Some operations trigger a parameter instantiation (copy),
             # we ensure both the class and instance parameters are reset.
             if pname in kls_params:
@@ -169,7 +173,8 @@ V("C05", "edit_constant_no_finally", "fire", "R05.a", (Z, """    try:
             if pname in inst_params:
                 parameterized.param[pname].constant = True
 """, """    yield
-    for pname in updated:
+    for pname, pobj in updated:
+        pobj.constant = True
         if pname in kls_params:
             type(parameterized).param[pname].constant=True
         if pname in inst_params:
@@ -233,11 +238,11 @@ V("C02", "post_setter_before_validate", "fire", "R02.a", (Z, """        self._va
 """))
 V("C02", "update_ref_inline_before_validate", "fire", "R02.a", (Z, """            relink = ref is not None or (name in obj._param__private.refs and not syncing)
             if is_async or val is Undefined:
-""", """            relink = ref is not None or (name in obj._param__private.refs and not syncing)
+                # There is no value""", """            relink = ref is not None or (name in obj._param__private.refs and not syncing)
             if ref is not None:
                 obj.param._update_ref(name, ref)
             if is_async or val is Undefined:
-"""))
+                # There is no value"""))
 V("C02", "dynamic_init_generator_before_super", "fire", "R02.a'", (P, """        super().__set__(obj,val)
 
         dynamic = callable(val)
@@ -255,15 +260,9 @@ V("C02", "update_setattr_before_key_check", "fire", "R02.b", (Z, """            
 """))
 V("C02", "benign_rename_relink_flag", "benign", None, (Z, """            relink = ref is not None or (name in obj._param__private.refs and not syncing)
             if is_async or val is Undefined:
-                if relink:
-                    self._relink(obj, name, ref)
-                return
-""", """            relink = (name in obj._param__private.refs and not syncing) or ref is not None
+                # There is no value""", """            relink = ref is not None or (not syncing and name in obj._param__private.refs)
             if is_async or val is Undefined:
-                if relink is True:
-                    self._relink(obj, name, ref)
-                return
-"""))
+                # There is no value"""))
 V("C02", "benign_relink_after_post_setter", "benign", None, (Z, """        if relink:
             self._relink(obj, name, ref)
         self._post_setter(obj, val)
